@@ -278,8 +278,9 @@ fn gen_spec_once(rng: &mut Rng, field: FieldSpec, gp: &GenParams) -> Spec {
         constraints.push(Constraint { target: t, constant: if rng.bool() { rng.below128(p) } else { 0 }, linear, top, rotation_log_order: None });
     }
     // auxiliary segment
-    let (aux, aux_rands) = if gp.aux {
-        let a = rng.range(1, 3);
+    // (main + auxiliary width may not exceed 255: TraceInfo refuses wider traces)
+    let (aux, aux_rands) = if gp.aux && width < 255 {
+        let a = rng.range(1, 3).min(255 - width);
         let r = if rng.chance(1, 8) { 0 } else { rng.range(1, 4) };
         let cols = (0..a)
             .map(|_| {
